@@ -44,6 +44,26 @@ MISSED = {
  "C11-5": "missed by the quick tier (deepest scc input 12 000; the thorough tier had 33 000 and 65 000); caught after the quick sizes were raised to 20 000 and 40 000",
  "C14-5": "missed (two adjacent identical entries were too rare); caught after 12% of the generated edge entries repeat the previous entry verbatim",
  "C15-5": "missed (programs only deserialised what they had serialised); caught after programs deserialise hand-made documents derived from the current graph (a key declared twice, an undeclared key, reordered lists) on both members of a pair",
+ "C01-6": "missed (largest hub 4100 entries per direction; bulk path from 8192); caught after the quick sizes went to 8200 and the hub is isolated while a neighbour is linked in both directions",
+ "C02-6": "missed (swap_remove from 8192 entries); caught after the quick sizes went to 8200",
+ "C03-6": "missed, then INCONCLUSIVE: with 8200-entry lists the allowed-successor check of disconnect (every pair of candidate entries, each with a list copy) made a failing case take minutes, so the watchdog reported exit 2 instead of the violation; the check is linear now (`minus_one`) and the change is reported",
+ "C04-6": "caught once the 70 000-node chain ran for bfs (path.start)",
+ "C05-6": "missed (a builder was asked at most twice); caught after the same builder is asked four times on g0, g, g0, g (an edge added, removed, added)",
+ "C06-6": "missed (same as C05-6); caught by the four-call reuse",
+ "C07-6": "missed (Dfs::search with a closure never ran as a complete traversal on a chain deeper than 65537); caught after the 70 000-node ring runs search() without a target for the closure properties",
+ "C08-6": "missed (no transposed ordering expanded more than 65536 nodes); caught after C08 got a 70 000-node hub on which orderings are compared with the same ordering on the reversed graph",
+ "C09-6": "missed (the deep chain had a short cut back to the root, so a cycle was still found); caught after the deep chain became a plain ring of 70 000 nodes",
+ "C10-6": "missed (same as C05-6); caught by the four-call reuse",
+ "C11-6": "missed (a 70 000-node chain is entered at a random member, so the traversal is ~35 000 deep on average); caught after the ring-with-sinks shape (every entry point gives a 70 000-deep traversal, two sink components below it)",
+ "C12-6": "missed (containers were serialised right after being filled); caught after some instances remove and re-insert a member and insert and remove a stranger before serialising",
+ "C13-6": "missed (longest keys 46 bytes); caught after the payload programs got keys of more than a thousand bytes of 3-byte characters",
+ "C14-6": "missed (value expressions named nothing but their own helpers); caught after value expressions name caller-side items (std::cmp::Ordering and caller types called Bfs, Dfs, Pfs, Order, Path, Method, Transposition, Adjacent): the generated program no longer compiles",
+ "C15-6": "missed (edges were only compared with edges of the same graph); caught after edges are compared with an edge built from fresh nodes with the same keys",
+ "C16-6": "caught at once",
+ "C17-6": "caught at once (sizeof is among the accessors of the lock-discipline probe)",
+ "C18-6": "caught at once (dot.edge-statements: edges to non-members)",
+ "C19-6": "caught by the sizes raised for C19-5 / C01-6 (8193 entries)",
+ "C20-6": "caught at once (loops through adapters: collect/unzip go through fold)",
  "C16-5": "missed (Path cannot be named, so it was not probed); caught after Path and its iterators are probed on values obtained from a real search",
 }
 def run(patch, props):
@@ -69,7 +89,7 @@ for d in sorted(glob.glob("/tmp/seeded-out/*/")):
     notes = open(f"{d}/notes.md").read()
     meta = {
         "id": name, "breaks_property": prop, "origin": "independent sub-agent given only the property text and a scratch worktree" + (" (second round: asked to be invisible on graphs with fewer than 5 nodes and histories of fewer than 6 operations)" if name.endswith("-3") else " (later round: asked for a change that a strong randomized / small-scope harness with integer payloads, graphs up to 40-1100 nodes and long histories would still miss)" if name.endswith("-4") or name.endswith("-5") else ""),
-        "origin_short": "sub-agent, round 2" if name.endswith("-3") else "sub-agent, round 3+" if name.endswith("-4") or name.endswith("-5") else "sub-agent, round 1",
+        "origin_short": "sub-agent, round 6" if name.endswith("-6") else "sub-agent, round 2" if name.endswith("-3") else "sub-agent, round 3+" if name.endswith("-4") or name.endswith("-5") else "sub-agent, round 1",
         "missed_at_first": MISSED.get(name),
         "needs_to_manifest": "see notes.md (written by the author of the change)",
         "confirmed_by_me": {"how": "tools/confirm_seeded.sh in a scratch worktree of /repo: git apply; cargo test --offline --no-fail-fast (80 tests + 118 doctests) with tests/seeded_demo.rs added; then without the patch", **conf},
